@@ -17,13 +17,14 @@ import (
 )
 
 // C19 — a failed storage read is reported and never wedges the segment.
-const c19Rule = "case = file-backed segment (small / block families, built or merged) + a sequence of 3..10 read calls (dictionary enumeration, postings walk, stored visit, doc-value visit with one retained reader, " +
+const c19Rule = "case = file-backed segment (small / block families, built or merged; >1024-document family with one retained doc-value reader crossing chunk boundaries) + a sequence of 3..10 read calls (dictionary enumeration, postings walk, stored visit, doc-value visit with one retained reader, " +
 	"DocsMatchingTerms, stats, persist, merge as input); inside each case EVERY index k of the storage read from which all reads fail is enumerated, k = 0..(reads of the fault-free run; beyond 300 reads: first 120, last 20 and a stride), each on a freshly loaded segment " +
 	"(walks through every 'which caches are warm' state); oracle = every call returns (watchdog + goroutine dump: blocked in Mutex.Lock under an ice frame = violation, anything else = inconclusive), a call that saw a failing " +
-	"read yields an error, an empty result or the fault-free result (never a different non-empty result), a call that saw none is correct, no panic - also when the caller keeps calling Next on an iterator that returned an error; non-trivial = the fault hits after >=1 successful read and >=1 call follows " +
+	"read yields an error, an empty result or the fault-free result (never a different non-empty result), a call before the first failure is correct, a later call that does no storage read of its own is correct or reports an error / empty result (never a different non-empty result), no panic - also when the caller keeps calling Next on an iterator that returned an error; non-trivial = the fault hits after >=1 successful read and >=1 call follows " +
 	"the first failing call; distinct = hash of case text + call sequence"
 
 type rop struct {
+	reuse  bool // postings: pass the goroutine's previous postings list / iterator as prealloc
 	kind   int
 	field  string
 	term   string
@@ -37,6 +38,9 @@ func (o rop) String() string {
 	case 0:
 		return fmt.Sprintf("dict(%q)", o.field)
 	case 1:
+		if o.reuse {
+			return fmt.Sprintf("postings(%q,%q,reuse)", o.field, o.term)
+		}
 		return fmt.Sprintf("postings(%q,%q)", o.field, o.term)
 	case 2:
 		return fmt.Sprintf("stored(%d)", o.doc)
@@ -57,6 +61,9 @@ type ropEnv struct {
 	seg   segment.Segment
 	dvr   map[string]segment.DocumentValueReader
 	yield bool // call runtime.Gosched() inside visitor callbacks (C09)
+	// the usual reuse idiom: the previous list / iterator of this reader
+	lastPL segment.PostingsList
+	lastIt segment.PostingsIterator
 }
 
 func (o rop) run(env *ropEnv) (res string, err error) {
@@ -84,13 +91,22 @@ func (o rop) run(env *ropEnv) (res string, err error) {
 			if err != nil {
 				return err
 			}
-			pl, err := d.PostingsList([]byte(o.term), nil, nil)
+			var prePL segment.PostingsList
+			var preIt segment.PostingsIterator
+			if o.reuse {
+				prePL, preIt = env.lastPL, env.lastIt
+			}
+			pl, err := d.PostingsList([]byte(o.term), nil, prePL)
 			if err != nil {
 				return err
 			}
-			it, err := pl.Iterator(true, true, true, nil)
+			it, err := pl.Iterator(true, true, true, preIt)
 			if err != nil {
 				return err
+			}
+			env.lastPL, env.lastIt = pl, it
+			if c := it.Count(); c != pl.Count() {
+				return fmt.Errorf("iterator Count %d != list Count %d", c, pl.Count())
 			}
 			var ps []XPosting
 			var firstErr error
@@ -117,8 +133,8 @@ func (o rop) run(env *ropEnv) (res string, err error) {
 			if firstErr != nil {
 				return firstErr
 			}
-			if len(ps) > 0 {
-				fmt.Fprintf(&sb, "%v", ps)
+			if len(ps) > 0 || pl.Count() > 0 {
+				fmt.Fprintf(&sb, "count=%d %v", pl.Count(), ps)
 			}
 		case 2:
 			err := env.seg.VisitStoredFields(o.doc, func(f string, v []byte) bool {
@@ -240,6 +256,29 @@ func findBlockedStack() string {
 	return ""
 }
 
+// genDVRops draws a doc-value-centric call sequence for a >1024-document
+// segment: one retained reader visiting documents of different chunks.
+func genDVRops(t *rapid.T, c *SegCase) []rop {
+	n := rapid.IntRange(3, 8).Draw(t, "nOps")
+	fields := []string{"a"}
+	if rapid.Bool().Draw(t, "twoFields") {
+		fields = []string{"b", "a"}
+	}
+	var ops []rop
+	for i := 0; i < n; i++ {
+		doc := rapid.SampledFrom([]int{0, 3, 1023, 1024, 1026, 2047, 2048, 2050, c.Exp.N - 1, c.Exp.N - 2}).Draw(t, "dvDoc")
+		if doc >= c.Exp.N {
+			doc = c.Exp.N - 1
+		}
+		if rapid.IntRange(0, 5).Draw(t, "other") == 0 {
+			ops = append(ops, rop{kind: 2, doc: uint64(doc)})
+			continue
+		}
+		ops = append(ops, rop{kind: 3, doc: uint64(doc), fields: fields})
+	}
+	return ops
+}
+
 func genRops(t *rapid.T, c *SegCase) []rop {
 	n := rapid.IntRange(3, 10).Draw(t, "nOps")
 	var present []ftTerm
@@ -267,6 +306,7 @@ func genRops(t *rapid.T, c *SegCase) []rop {
 		case 0, 5:
 			o.field = pickField("field")
 		case 1:
+			o.reuse = rapid.Bool().Draw(t, "reuse")
 			if len(present) > 0 && rapid.IntRange(0, 5).Draw(t, "presentTerm") > 0 {
 				p := present[rapid.IntRange(0, len(present)-1).Draw(t, "pt")]
 				o.field, o.term = p.f, p.t
@@ -316,6 +356,9 @@ func c19Prop(st *CaseStats, fam int) func(t *rapid.T) {
 			t.Fatalf("INFRA: %v", err)
 		}
 		ops := genRops(t, c)
+		if fam == FamWide {
+			ops = genDVRops(t, c)
+		}
 		desc := fmt.Sprintf("%s file-backed %s calls=%v", sc, c.Desc, ops)
 		fresh := func() (*ropEnv, *faultReader) {
 			d, fr, err := faultData(f)
@@ -345,6 +388,7 @@ func c19Prop(st *CaseStats, fam int) func(t *rapid.T) {
 		total := int(fr.calls.Load())
 		inner := 0
 		nt := false
+		staleEmpty := 0
 		var ks []int
 		if total <= 300 {
 			for k := 0; k <= total; k++ {
@@ -386,12 +430,23 @@ func c19Prop(st *CaseStats, fam int) func(t *rapid.T) {
 					if err == nil && res != "" && res != good[i] {
 						t.Fatalf("%s:\n  storage fails from read #%d on: call #%d %s saw a failing read but returned no error and a wrong non-empty result %q (fault-free: %q)", desc, k, i, o, res, good[i])
 					}
-				} else {
+				} else if firstFail < 0 {
+					// the storage has not failed yet: plain correctness
 					if err != nil {
-						t.Fatalf("%s:\n  storage fails from read #%d on: call #%d %s touched no failing read but returned error %v", desc, k, i, o, err)
+						t.Fatalf("%s:\n  storage fails from read #%d on: call #%d %s ran before any failing read but returned error %v", desc, k, i, o, err)
 					}
 					if res != good[i] {
-						t.Fatalf("%s:\n  storage fails from read #%d on: call #%d %s touched no failing read but returned %q instead of %q", desc, k, i, o, res, good[i])
+						t.Fatalf("%s:\n  storage fails from read #%d on: call #%d %s ran before any failing read but returned %q instead of %q", desc, k, i, o, res, good[i])
+					}
+				} else {
+					// after the storage started failing, a call served from warm caches must be correct,
+					// or report an error / an empty result (a cache invalidated by the earlier failure);
+					// a different non-empty result would be silently wrong data
+					if err == nil && res != "" && res != good[i] {
+						t.Fatalf("%s:\n  storage fails from read #%d on: call #%d %s (after the first failed call, no storage read of its own) returned no error and a wrong non-empty result %q (fault-free: %q)", desc, k, i, o, res, good[i])
+					}
+					if err == nil && res == "" && good[i] != "" {
+						staleEmpty++
 					}
 				}
 			}
@@ -401,6 +456,7 @@ func c19Prop(st *CaseStats, fam int) func(t *rapid.T) {
 		}
 		st.AddInner(inner)
 		st.Label("fault-points", len(ks))
+		st.Label("later-call-empty-instead-of-cached-result(allowed)", staleEmpty)
 		st.Record(desc, nt, c.LabelList()...)
 	}
 }
@@ -416,6 +472,12 @@ func TestC19Small(t *testing.T) {
 	st := NewStats("C19Small", c19Rule)
 	defer st.Flush()
 	rapid.Check(t, c19Prop(st, FamSmall))
+}
+
+func TestC19Wide(t *testing.T) {
+	st := NewStats("C19Wide", c19Rule)
+	defer st.Flush()
+	rapid.Check(t, c19Prop(st, FamWide))
 }
 
 func TestC19Blocks(t *testing.T) {
